@@ -305,3 +305,47 @@ Proof.
   destruct (proc_data a (c_p c)) as [a1 e1]. rewrite IH by assumption.
   destruct (proc_all a1 (map c_p b)) as [a2 e2]. cbn. repeat f_equal. lia.
 Qed.
+
+(* ------------------------------------------------------------------ RE-CONFIG leaves everything but the stream table alone *)
+Definition only_ctl (evs : list event) : Prop := Forall (fun e => exists t, e = TxCtl t) evs.
+
+Lemma only_ctl_app a b : only_ctl a -> only_ctl b -> only_ctl (a ++ b).
+Proof. intros Ha Hb. apply Forall_app. split; assumption. Qed.
+
+Lemma only_ctl_log sid evs : only_ctl evs -> log_of sid evs = [].
+Proof. induction 1 as [|e evs [t ->] _ IH]; [reflexivity|]. cbn. exact IH. Qed.
+Lemma only_ctl_evs sid evs : only_ctl evs -> evs_of sid evs = [].
+Proof. induction 1 as [|e evs [t ->] _ IH]; [reflexivity|]. cbn. exact IH. Qed.
+
+Definition same_but_streams (st st' : rstate) : Prop :=
+  r_conn st' = r_conn st /\ r_cum st' = r_cum st /\ r_rq st' = r_rq st /\ r_used st' = r_used st /\
+  a_chans (r_app st') = a_chans (r_app st).
+
+Lemma same_but_streams_refl st : same_but_streams st st.
+Proof. repeat split. Qed.
+Lemma same_but_streams_trans a b c : same_but_streams a b -> same_but_streams b c -> same_but_streams a c.
+Proof. intros (A1&A2&A3&A4&A5) (B1&B2&B3&B4&B5). repeat split; congruence. Qed.
+
+Lemma ssn_reset_frame st v : same_but_streams st (fst (ssn_reset st v)) /\ only_ctl (snd (ssn_reset st v)).
+Proof.
+  unfold ssn_reset. destruct (ssn_reset_streams v) as [[rsn ids]|]; [|split; [apply same_but_streams_refl|constructor]].
+  destruct (_ && _); cbn [fst snd].
+  - split; [apply same_but_streams_refl|]. constructor; [eexists; reflexivity|constructor].
+  - split; [repeat split|]. constructor; [eexists; reflexivity|constructor].
+Qed.
+
+Lemma reconfig_apply_frame ps : forall st,
+  same_but_streams st (fst (reconfig_apply st ps)) /\ only_ctl (snd (reconfig_apply st ps)).
+Proof.
+  induction ps as [|[ty v] r IH]; intros st; cbn [reconfig_apply]; [split; [apply same_but_streams_refl|constructor]|].
+  assert (H1 : same_but_streams st (fst (if ty =? RECONFIG_PARAM_OUTGOING_SSN_RESET then ssn_reset st v else (st, []))) /\
+               only_ctl (snd (if ty =? RECONFIG_PARAM_OUTGOING_SSN_RESET then ssn_reset st v else (st, [])))).
+  { destruct (ty =? RECONFIG_PARAM_OUTGOING_SSN_RESET); [apply ssn_reset_frame|split; [apply same_but_streams_refl|constructor]]. }
+  destruct (if ty =? RECONFIG_PARAM_OUTGOING_SSN_RESET then ssn_reset st v else (st, [])) as [st1 e1]. cbn [fst snd] in H1.
+  destruct (IH st1) as [H2 H3]. destruct (reconfig_apply st1 r) as [st2 e2]. cbn [fst snd] in *.
+  split; [eapply same_but_streams_trans; [apply H1|exact H2]|apply only_ctl_app; [apply H1|exact H3]].
+Qed.
+
+Lemma handle_reconfig_frame st v :
+  same_but_streams st (fst (handle_reconfig st v)) /\ only_ctl (snd (handle_reconfig st v)).
+Proof. apply reconfig_apply_frame. Qed.
